@@ -116,6 +116,8 @@ type VC struct {
 	goalBind    map[string]TV // given terms for quantified variables (instance hints)
 	hintArgs   []TV
 	lastResult  *TV // result of the call just executed (hints placed @after: a call)
+	prevRes     *TV          // result of the call most recently executed on every path to this point (straight-line or single-predecessor chain)
+	blockPrevRes map[int]*TV // prevRes at the end of each block
 	oracle      bool // replay oracle: recursive spec functions are given as define-fun-rec (they must compute)
 	callPreHit  map[int]int
 	transferHit map[int]int
@@ -589,7 +591,7 @@ func (vc *VC) havocAll(st *State) {
 	keep := map[string]string{}
 	defer func(e int) {}(st.epoch)
 	for k, v := range st.heap {
-		if k == tokKey || k == freshKey || strings.HasPrefix(k, "#fifo.") || k == "#held" || k == "#waited" || k == "#fnid" {
+		if k == tokKey || k == freshKey || strings.HasPrefix(k, "#fifo.") || k == "#held" || k == "#waited" || k == "#polled" || k == "#fnid" {
 			keep[k] = v
 		}
 		if strings.HasPrefix(k, "#ghost.") {
@@ -599,7 +601,7 @@ func (vc *VC) havocAll(st *State) {
 		}
 	}
 	// bookkeeping ghosts of the activation itself survive even if they were only registered so far
-	for _, k := range []string{"#waited", "#held", "#fnid"} {
+	for _, k := range []string{"#waited", "#polled", "#held", "#fnid"} {
 		if _, ok := keep[k]; !ok && vc.heapElem[k] != nil {
 			keep[k] = vc.heapGet(st, k, vc.heapElem[k])
 		}
